@@ -206,7 +206,7 @@ inductive Kind | builder | selector | rewriter | str | attrIter | shandler
 inductive Payload (R : RApi)
   | builder (elem : List (ElemReg Nat)) (doc : List DocReg)   -- `&'static Selector` = selector handle
   | selector (s : R.Sel)
-  | rewriter (inner : Option R.Rw)                            -- `HtmlRewriter(Option<_>)`
+  | rewriter (inner : Option R.Rw) (poisoned : Bool)          -- `HtmlRewriter(Option<_>)`; a `write` failed
   | str
   | attrIter (pos len scope epoch : Nat)                      -- `slice::Iter` over the attribute vector
   | shandler (script : Nat) (hasDrop : Bool)                  -- boxed `CStreamingHandler`
@@ -445,9 +445,10 @@ def mutationAllowed (pol : Policy) (e : Env R) (f : Nat) : Bool :=
 /-- Apply a Rust method and bump the attribute epoch when it touches the attribute vector. -/
 def callR (s : HState R) (op : ROp) : Res (HState R × RRes) :=
   let (u, r, dropped) := R.unitOp s.u op
-  let bump := match op with
-    | .call f _ _ => mutatesAttrs f
-    | _ => false
+  let bump := match op, r with
+    | .call _ _ _, .err _ => false          -- the name was rejected before the vector was touched
+    | .call f _ _, _ => mutatesAttrs f
+    | _, _ => false
   do
     let env ← dropAll s.env dropped
     pure ({ u := u, env := if bump then { env with epoch := env.epoch + 1 } else env }, r)
@@ -739,34 +740,37 @@ def topStep (pol : Policy) (prog : Prog) (e : Env R) (c : Call R.Chunk) : Res (E
           match R.new ⟨elemR, doc, encoding, mem, strict, esi⟩ with
           | .error m => pure (((saveLastError e t (.rust m)).setVar dst none).out (.ptr true))
           | .ok rw =>
-            let (e, h) := alloc e (.rewriter (some rw))
+            let (e, h) := alloc e (.rewriter (some rw) false)
             pure ((e.setVar dst (some h)).out (.ptr false))
     | _ => .fault .typeConfusion
   | .write r chunk => do
     require (validArg e r .rewriter) "rewriter_write: rewriter not live"
     let (h, o) ← deref e r .rewriter
     match o.p with
-    | .rewriter none => do
+    | .rewriter none _ => do
       -- "after calling [end], further attempts to use the rewriter … will cause a thread panic"
       require false "rewriter_write after end"
       .fault .abort
-    | .rewriter (some rw) => do
+    | .rewriter (some rw) poisoned => do
+      -- "if this function errors the rewriter gets into the unrecoverable state, so any further
+      --  attempts to use the rewriter will cause a thread panic"
+      require (!poisoned) "rewriter used after a failed write"
       let (rw, e, res) ← drive pol prog t fuelDefault rw (.write chunk) e
-      let e := e.setObj h ⟨o.st, .rewriter (some rw)⟩
       match res with
-      | .ok () => pure (e.out (.code 0))
-      | .error m => pure ((saveLastError e t m).out (.code (-1)))
+      | .ok () => pure ((e.setObj h ⟨o.st, .rewriter (some rw) false⟩).out (.code 0))
+      | .error m => pure ((saveLastError (e.setObj h ⟨o.st, .rewriter (some rw) true⟩) t m).out (.code (-1)))
     | _ => .fault .typeConfusion
   | .end_ r => do
     require (validArg e r .rewriter) "rewriter_end: rewriter not live"
     let (h, o) ← deref e r .rewriter
     match o.p with
-    | .rewriter none => do
+    | .rewriter none _ => do
       require false "rewriter_end after end"
       .fault .abort
-    | .rewriter (some rw) => do
+    | .rewriter (some rw) poisoned => do
+      require (!poisoned) "rewriter used after a failed write"
       -- rewriter.rs:135 `.0.take()`: the inner value leaves the box before `end` runs
-      let e := e.setObj h ⟨.taken, .rewriter none⟩
+      let e := e.setObj h ⟨.taken, .rewriter none poisoned⟩
       let (rw, e, res) ← drive pol prog t fuelDefault rw .end_ e
       -- `end(self)` consumes the rewriter: whatever it still owns is dropped
       let e ← applyEvents e (R.drop rw)
@@ -778,7 +782,7 @@ def topStep (pol : Policy) (prog : Prog) (e : Env R) (c : Call R.Chunk) : Res (E
     require (validArg e r .rewriter) "rewriter_free: rewriter not live"
     let (e, _, o) ← release e r .rewriter
     match o.p with
-    | .rewriter (some rw) => do
+    | .rewriter (some rw) _ => do
       let e ← applyEvents e (R.drop rw)
       pure (e.out .void)
     | _ => pure (e.out .void)
